@@ -54,7 +54,8 @@ RULE = ("inventory: random item/category/object nodes (every AssetType/Inventory
         "over 3 process time zones. distinct_nontrivial = distinct (codec, shape) classes + (size, arrival sequence) pairs"
         ". Round-5 additions: the Xfer receiver in both acknowledgement modes (per packet, turbo); fixed-width strings with NULs before the last character"
         ". Rounds 6-7: sub-second dates in metadata (compared as instants); a parsed model is edited in place and the same text parsed again; the Xfer receive pump driven in shifted time (steady chunks with gaps up to 4.9 s over up to 22 s complete, a 6 s silence fails)"
-        ". Round 8: the library's sender (confirmations awaited and not) against the library's receiver (per packet, turbo) for 10 sizes up to 12 chunks, judged in loop iterations")
+        ". Round 8: the library's sender (confirmations awaited and not) against the library's receiver (per packet, turbo) for 10 sizes up to 12 chunks, judged in loop iterations"
+        ". Round 10: a raw mesh segment that inflates to more than a megabyte")
 ASSUMPTIONS = [
     "names and descriptions are text without '|', tab, CR, LF and without leading/trailing blanks (the line format cannot carry "
     "them; the viewer itself replaces '|'); strings inside embedded metadata avoid '|', tab, CR, LF for the text flavour only",
